@@ -89,7 +89,7 @@ func main() {
 	dir := flag.String("dir", "", "root of the scratch copy (a Go module)")
 	simrtDir := flag.String("simrt", "", "directory of the simrt module")
 	out := flag.String("out", "", "where to write the site table / report (JSON)")
-	maxLevel := flag.Int("level", 3, "maximum instrumentation level")
+	maxLevel := flag.Int("level", 4, "maximum instrumentation level (4 = 3 + rewrites that change a variable's type: reflect.MapIter)")
 	flag.Parse()
 	if *dir == "" || *simrtDir == "" || *out == "" {
 		fmt.Fprintln(os.Stderr, "usage: liqinstr -dir D -simrt S -out F")
@@ -159,9 +159,12 @@ func main() {
 		for _, p := range pkgs {
 			rel, _ := filepath.Rel(rootDir, pkgDir(p))
 			if bad[rel] != "" {
-				if pkgLevel[p.PkgPath] == 3 {
+				switch pkgLevel[p.PkgPath] {
+				case 4:
+					pkgLevel[p.PkgPath] = 3
+				case 3:
 					pkgLevel[p.PkgPath] = 2
-				} else {
+				default:
 					pkgLevel[p.PkgPath] = 0
 				}
 				report.Notes = append(report.Notes, fmt.Sprintf("package %s: level lowered to %d after build error: %s", p.PkgPath, pkgLevel[p.PkgPath], bad[rel]))
@@ -538,7 +541,9 @@ func (fi *fileInstr) rewriteCall(call *ast.CallExpr) {
 			fi.replace(sel.Pos(), sel.End(), "simrt."+to)
 			report.ClockSites++
 		} else if obj.Pkg().Path() == "maps" && (obj.Name() == "Keys" || obj.Name() == "Values" || obj.Name() == "All") {
-			report.UncontrolledMap = append(report.UncontrolledMap, fi.where(call.Pos())+": maps."+obj.Name())
+			fi.keepRefs[fi.text(sel)+"[map[int]int]"] = true
+			fi.replace(sel.Pos(), sel.End(), "simrt.Maps"+obj.Name())
+			report.MapRangeSites++
 		} else if obj.Pkg().Path() == "sync/atomic" {
 			report.SyncSites++ // handled at statement level (records)
 		}
@@ -560,7 +565,14 @@ func (fi *fileInstr) rewriteCall(call *ast.CallExpr) {
 		fi.insert(call.End(), ")")
 		report.MapKeysSites++
 	case key == "reflect.Value.MapRange":
-		report.UncontrolledMap = append(report.UncontrolledMap, fi.where(call.Pos())+": reflect.Value.MapRange")
+		if fi.level >= 4 && fi.pure(sel.X) {
+			// the result type becomes *simrt.MapIter (same methods): compiles unless the
+			// iterator is passed on as a *reflect.MapIter, in which case level 3 is used
+			fi.replace(call.Pos(), call.End(), "simrt.MapRange("+fi.text(sel.X)+")")
+			report.MapKeysSites++
+		} else {
+			report.UncontrolledMap = append(report.UncontrolledMap, fi.where(call.Pos())+": reflect.Value.MapRange")
+		}
 	case syncMethods[key] != "":
 		ptr, ok := fi.recvPtr(sel)
 		if !ok {
